@@ -15,6 +15,7 @@ import (
 
 	cfg "github.com/lianxiangcloud/linkchain/config"
 	"github.com/lianxiangcloud/linkchain/libs/common"
+	"github.com/lianxiangcloud/linkchain/libs/cryptonote/xcrypto"
 	"github.com/lianxiangcloud/linkchain/types"
 )
 
@@ -81,6 +82,7 @@ type bctx struct {
 	kit   *txkit.Kit
 	used  map[common.Address]uint64 // transactions of the sender earlier in this block
 	msUse uint64
+	own   uint64           // confidential transactions built outside the Kit
 	chain *minichain.Chain // any chain at the prior state (validator keys, balances)
 }
 
@@ -111,6 +113,11 @@ func commonLetters() []letter {
 		}),
 		letter{"A->U(C->W1,W2)", func(x *bctx) (types.Tx, error) {
 			return x.kit.AccountToUTXO(C, x.next(C), []txkit.Dest{txkit.ToWallet(txkit.W1, 1, txkit.LKC(70)), txkit.ToWallet(txkit.W2, 2, txkit.LKC(30))}, nil)
+		}},
+		// the same kind from an account whose nonce is > 0 in the second prior state (7) and, after any other letter of A,
+		// also at genesis
+		letter{"A->U(A->W0,W2)", func(x *bctx) (types.Tx, error) {
+			return x.kit.AccountToUTXO(A, x.next(A), []txkit.Dest{txkit.ToWallet(txkit.W0, 2, txkit.LKC(40)), txkit.ToWallet(txkit.W2, 0, txkit.LKC(60))}, nil)
 		}},
 		plain("multisign", func(x *bctx) types.Tx {
 			n := x.w.msNonce + x.msUse
@@ -164,6 +171,10 @@ func lettersFor(st int) []letter {
 		}},
 		letter{"U->U(W0 out0 -> W1)[double spend with the first U->U]", func(x *bctx) (types.Tx, error) {
 			return x.kit.Transfer(x.w.led, txkit.W0, x.w.spendW0[:1], 1, []txkit.Dest{txkit.ToWallet(txkit.W1, 0, txkit.LKC(1))}, 0)
+		}},
+		// account -> confidential in an issued TOKEN: amount in token units, fee in coin from the same account (nonce 7+)
+		letter{"A->U token(A->W1, issued token, fee from account)", func(x *bctx) (types.Tx, error) {
+			return tokenAin(x, A, issuerAddr, txkit.LKC(30))
 		}},
 		letter{"U->A(W1 -> C)", func(x *bctx) (types.Tx, error) {
 			tx, _, err := x.kit.ToAccountAll(x.w.led, txkit.W1, x.w.spendW1[:1], 1, C.Addr)
@@ -228,4 +239,28 @@ func fmtErr(err error) string {
 		return ""
 	}
 	return fmt.Sprint(err)
+}
+
+// tokenAin builds an account -> confidential transaction in a token (types.NewAinTokenTransaction + Sign). The unit of
+// the hidden amount comes from the token contract's decimals() through a process-wide getter that is bound to the
+// application created last: a throw-away replica of the prior state binds it to a state that has the contract.
+func tokenAin(x *bctx, from *txkit.Account, token common.Address, amount *big.Int) (types.Tx, error) {
+	rb := x.w.tmpl[0].clone()
+	defer rb.Close()
+	src := &types.AccountSourceEntry{From: from.Addr, Nonce: x.next(from), Amount: new(big.Int).Set(amount)}
+	dests := []types.DestEntry{&types.UTXODestEntry{Addr: txkit.W1.Addr(0), Amount: new(big.Int).Set(amount)}}
+	var tx *types.UTXOTransaction
+	var err error
+	// deterministic randomness, disjoint from the Kit's own sequence (per-goroutine generator of the crypto stand-in)
+	x.own++
+	xcrypto.VerifSetLocalSeed(x.kit.Seed<<20 + 1<<19 + x.own)
+	tx, _, err = types.NewAinTokenTransaction(src, dests, token, txkit.FeeAin(amount), nil)
+	xcrypto.VerifClearLocalSeed()
+	if err != nil {
+		return nil, err
+	}
+	if err := tx.Sign(types.GlobalSTDSigner, from.Key); err != nil {
+		return nil, err
+	}
+	return tx, nil
 }
